@@ -615,6 +615,10 @@ def cumprod(x, axis=None, out=None, out_like=None, sizing='optimal', method='raw
     n_word = x.size * x.n_word
     n_frac = x.size * x.n_frac
     n_int = n_word - int(signed) - n_frac
+    if x.n_frac < 0:
+        # with a negative fraction length the first partial product has the finest grid
+        n_frac = x.n_frac
+        n_word = int(signed) + n_int + n_frac
     optimal_size = (signed, n_word, n_int, n_frac)
 
     kwargs['axis'] = axis
